@@ -20,7 +20,7 @@ import (
 var c15PublishNil = os.Getenv("BBSIM_C15_NIL") != "0"
 
 func init() {
-	Register(Harness{Prop: "C15", Name: "C15/notifier", Run: c15Notifier})
+	Register(Harness{Prop: "C15", Name: "C15/notifier", Run: c15Notifier, Weight: 5})
 }
 
 type c15T struct{ ID int }
